@@ -97,13 +97,17 @@ pub fn table() -> LogicalTable {
 pub fn layouts() -> Vec<Layout> {
     let base = DbOpts::default();
     vec![
-        // one partition, in memory
+        // one partition, executed in two streamed batches (8 + 4 rows): operators that keep state between
+        // batches (output buffers, null maps, cursors) are reset or carried over
         Layout {
             name: "one-partition".into(),
             batches: vec![12],
             flush_after: vec![true],
             omit_null_cols: false,
-            opts: base.clone(),
+            opts: DbOpts {
+                batch_size: 8,
+                ..base.clone()
+            },
             post: vec![],
         },
         // three partitions with different value ranges / dictionaries; the middle one lacks `ns`; read back cold
